@@ -1385,6 +1385,9 @@ def gen_project(rng, pidx: int, docformat: str, force_deprecated: bool = False) 
             "markers": [(m.id, m.num, m.kind, m.payload) for m in markers]}
 
 
+OBJECT_EXTS = ["svg", "swf", "mp4", "webm", "ogg", "SVG", "Svg", "MP4", "SWF", "WebM", "OGG", "sVg"]
+
+
 def gen_directive_module(rng, mk, doc_safe) -> str:
     """reST constructs whose ARGUMENTS and OPTIONS (not body text) carry markers: one construct per function docstring,
     so that a construct docutils refuses does not hide the others"""
@@ -1406,8 +1409,10 @@ def gen_directive_module(rng, mk, doc_safe) -> str:
         lambda: f".. code:: python\n   :number-lines: {D('code-number-lines', True)}\n\n   x = 1",
         lambda: f".. admonition:: Title {D('admonition-title')}\n   :class: {D('option-class')}\n\n   text",
         lambda: f".. note:: {D('admonition-arg')}\n\n.. warning::\n   :name: {D('option-name')}\n\n   w",
-        lambda: f".. image:: diagram.{rng.choice(['svg', 'swf', 'mp4', 'webm', 'ogg', 'SVG'])}\n   :alt: {D('image-alt-object')}",
-        lambda: f".. image:: pic{D('image-uri-object', True)}.svg",
+        # docutils lower-cases the extension before it decides for <object>: every spelling of it counts
+        lambda: f".. image:: diagram.{rng.choice(OBJECT_EXTS)}\n   :alt: {D('image-alt-object')}",
+        lambda: f".. image:: pic{D('image-uri-object', True)}.{rng.choice(OBJECT_EXTS)}",
+        lambda: f".. figure:: fig.{rng.choice(OBJECT_EXTS)}\n   :alt: {D('image-alt-object')}\n\n   caption {D('figure-caption')}",
         lambda: f".. image:: pic{D('image-uri', True)}.png\n   :alt: {D('image-alt')}\n   :target: http://t/{D('image-target', True)}\n   :width: {D('image-width', True)}",
         lambda: f".. figure:: fig{D('image-uri', True)}.png\n   :figclass: {D('option-class')}\n\n   caption {D('figure-caption')}",
         lambda: (lambda k: f".. |sub{k}| replace:: {D('substitution-text')}\n\nUse |sub{k}| and |{D('substitution-name')}| here.")(N()),
@@ -1669,8 +1674,15 @@ def corpus_projects() -> List[Dict[str, Any]]:
     # hunter round (hunt/C10/1, 2, 4 and the constructor notice)
     ms = [Marker(9300, "directive:image-alt-object", "<script>xmk{i}</script><img src=\"x\" onzz{i}=\"1\"/>"),
           Marker(9301, "directive:image-uri-object", "<xmk{i}/>")]
+    ms += [Marker(9302, "directive:image-alt-object", "<xmk{i} onzz{i}=\"1\"/>"), Marker(9303, "directive:image-uri-object", "<xmk{i}/>"),
+           Marker(9304, "directive:image-alt-object", "<script>xmk{i}</script>"), Marker(9305, "directive:image-alt-object", "<xmk{i}/>")]
     proj("restructuredtext", fn("img1", "", f"\n    Summary.\n\n    .. image:: diagram.svg\n       :alt: {ms[0].text}\n    ")
-         + fn("img2", "", f"\n    Summary.\n\n    .. image:: {ms[1].text}.mp4\n    "), ms)
+         + fn("img2", "", f"\n    Summary.\n\n    .. image:: {ms[1].text}.mp4\n    ")
+         # seeded C10-r5-1: the extension in another case (docutils lower-cases it), and a figure
+         + fn("img3", "", f"\n    Summary.\n\n    .. image:: diagram.SVG\n       :alt: {ms[2].text}\n    ")
+         + fn("img4", "", f"\n    Summary.\n\n    .. image:: {ms[3].text}.Mp4\n    ")
+         + fn("img5", "", f"\n    Summary.\n\n    .. figure:: fig.SWF\n       :alt: {ms[4].text}\n\n       caption\n    ")
+         + fn("img6", "", f"\n    Summary.\n\n    .. image:: diagram.WebM\n       :alt: {ms[5].text}\n    "), ms)
     for fmt in ("epytext", "restructuredtext"):
         ms = [Marker(9310, "math-cdata", MATH_CDATA_PAYLOADS[0]), Marker(9311, "math-comment", MATH_COMMENT_PAYLOADS[0]),
               Marker(9312, "math-template", MATH_TEMPLATE_PAYLOADS[0])]
